@@ -17,8 +17,9 @@ import (
 )
 
 // TestMutGen writes the C04 case file: one line per case
-//   P <pi> <mi> <ic> <B|W> <segs> <tag>        generated parser of model pi/mi
-//   H <func> <B|W> <segs> <tag>               hand-written decoder (ReadPacket, NameFromBytes, ...)
+//
+//	P <pi> <mi> <ic> <B|W> <segs> <tag>        generated parser of model pi/mi
+//	H <func> <B|W> <segs> <tag>               hand-written decoder (ReadPacket, NameFromBytes, ...)
 func TestMutGen(t *testing.T) {
 	g, w, done := setup(t)
 	defer done()
